@@ -17,6 +17,7 @@ type MatchRequest struct {
 	final    bool
 	sort     bool
 	revision revision
+	serial   uint64
 }
 
 // Matcher is responsible for performing search
@@ -31,6 +32,7 @@ type Matcher struct {
 	slab           []*util.Slab
 	mergerCache    map[string]*Merger
 	revision       revision
+	serial         uint64
 }
 
 const (
@@ -71,7 +73,10 @@ func (m *Matcher) Loop() {
 				}
 				switch val := val.(type) {
 				case MatchRequest:
-					request = val
+					// Both reqRetry and reqReset can be pending; serve the most recent one
+					if val.serial >= request.serial {
+						request = val
+					}
 					if verifOn {
 						verifMatch("slot", &val, nil, "kind", int(t))
 					}
@@ -267,10 +272,12 @@ func (m *Matcher) Reset(chunks []*Chunk, patternRunes []rune, cancel bool, final
 	} else {
 		event = reqRetry
 	}
+	m.serial++
+	request := MatchRequest{chunks, pattern, final, sort, revision, m.serial}
 	if verifOn {
-		verifMatch("reset", &MatchRequest{chunks, pattern, final, sort, revision}, nil, "cancel", cancel)
+		verifMatch("reset", &request, nil, "cancel", cancel)
 	}
-	m.reqBox.Set(event, MatchRequest{chunks, pattern, final, sort, revision})
+	m.reqBox.Set(event, request)
 }
 
 func (m *Matcher) Stop() {
